@@ -2,6 +2,7 @@ package main
 
 import (
 	"fmt"
+	"go/constant"
 	"go/token"
 	"go/types"
 	"strings"
@@ -51,32 +52,14 @@ func c01Names(c *Ctx, rule string) {
 		}
 		n++
 		s := sx.Of(st.Val).String()
-		okCut := strings.HasPrefix(s, "conv[string](slice(alloc(") && strings.Contains(s, "call[strings.Index](") && strings.Contains(s, `const("\x00")`)
-		r.Check(okCut, rule, "dhcpv4.FromBytes: "+name+" is the array cut at the first NUL (or whole)", c.P.ipos(st), "symx", name+" is "+s)
+		nc := nulCutOf(st.Val, 0)
+		_, isArr := nc.root.(*ssa.Alloc)
+		okCut := nc.ok && nc.cuts > 0 && isArr
+		r.Check(okCut, rule, "dhcpv4.FromBytes: "+name+" is the array cut at the first NUL (or whole)", c.P.ipos(st), "value is string(field[:index of the first zero octet]) / string(field) — also through an unexported helper with exactly that body", name+" is "+s)
 		// without a NUL the whole field is the name: a constant fallback for the cut equals the array length (a name that
 		// fills its field completely is legal on the wire)
-		if cv, ok := st.Val.(*ssa.Convert); ok {
-			if sl, ok := cv.X.(*ssa.Slice); ok && sl.High != nil {
-				if pt, ok := sl.X.Type().Underlying().(*types.Pointer); ok {
-					if at, ok := pt.Elem().Underlying().(*types.Array); ok {
-						okAll := true
-						var walk func(v ssa.Value, d int)
-						walk = func(v ssa.Value, d int) {
-							if ph, ok := v.(*ssa.Phi); ok && d < 4 {
-								for _, e := range ph.Edges {
-									walk(e, d+1)
-								}
-								return
-							}
-							if k, ok := intConst(v); ok && k != at.Len() {
-								okAll = false
-							}
-						}
-						walk(sl.High, 0)
-						r.Check(okAll, rule, "dhcpv4.FromBytes: "+name+" without a NUL is the whole field", c.P.ipos(st), "the constant fallback of the cut equals the array length", fmt.Sprintf("a %s field of %d octets without a zero octet is cut short: the last octets are dropped", name, at.Len()))
-					}
-				}
-			}
+		if okCut {
+			r.Check(!nc.shortFallback, rule, "dhcpv4.FromBytes: "+name+" without a NUL is the whole field", c.P.ipos(st), "the fallback of the cut is the whole field", fmt.Sprintf("a %s field without a zero octet is cut short: the last octets are dropped", name))
 		}
 	})
 	r.Check(n == 2, rule, "dhcpv4.FromBytes: both names decoded", c.P.pos(f.Pos()), "instance count", fmt.Sprintf("%d name stores", n))
@@ -142,8 +125,13 @@ func c01Split(c *Ctx) {
 		}
 	}
 	r.Check(okCarry, "C01-K3", key("remainder carried on is data[n:] of the same n"), c.P.ipos(wb), "φ edge is slice(data, n, _)", "the remainder for the next instance is not data[n:]")
-	// n = φ(len(data), 255) with guard len > 255
+	// n = φ(len(data), 255) with guard len > 255, or the builtin min(len(data), 255)
 	okClamp := false
+	if cl, ok := n.(*ssa.Call); ok && isBuiltinCall(cl.Common(), "min") && len(cl.Call.Args) == 2 {
+		isLenData := func(v ssa.Value) bool { return lenOperand(v) == ssa.Value(data) }
+		is255 := func(v ssa.Value) bool { k, ok := intConst(v); return ok && k == 255 }
+		okClamp = (isLenData(cl.Call.Args[0]) && is255(cl.Call.Args[1])) || (isLenData(cl.Call.Args[1]) && is255(cl.Call.Args[0]))
+	}
 	if ph, ok := n.(*ssa.Phi); ok && len(ph.Edges) == 2 {
 		var hasLen, has255 bool
 		for _, e := range ph.Edges {
@@ -273,4 +261,159 @@ func marshalHelpers(c *Ctx, f *ssa.Function) []*ssa.Function {
 		})
 	}
 	return out
+}
+
+// nulCut describes a string value built from a byte source by cutting at the first zero octet.
+type nulCut struct {
+	ok            bool
+	root          ssa.Value // the byte source (an array allocation, or a parameter inside a helper)
+	cuts          int       // alternatives of the form string(src[:index of NUL])
+	wholes        int       // alternatives of the form string(src) / string(src[:len])
+	shortFallback bool      // an alternative takes a constant prefix shorter or longer than the source
+}
+
+func byteRoot(v ssa.Value) ssa.Value {
+	for i := 0; i < 4; i++ {
+		if sl, ok := v.(*ssa.Slice); ok && sl.Low == nil && sl.High == nil && sl.Max == nil {
+			v = sl.X
+			continue
+		}
+		break
+	}
+	return v
+}
+
+// nulIndexOf: v is the index of the first zero octet of some byte source; returns that source's root
+func nulIndexOf(v ssa.Value) (ssa.Value, bool) {
+	cl, ok := v.(*ssa.Call)
+	if !ok || cl.Call.StaticCallee() == nil || len(cl.Call.Args) != 2 {
+		return nil, false
+	}
+	isZero := func(a ssa.Value) bool {
+		k, ok := a.(*ssa.Const)
+		if !ok || k.Value == nil {
+			return false
+		}
+		if k.Value.Kind() == constant.String {
+			return constant.StringVal(k.Value) == "\x00"
+		}
+		n, isInt := intConst(a)
+		return isInt && n == 0
+	}
+	if !isZero(cl.Call.Args[1]) {
+		return nil, false
+	}
+	switch funcKey(cl.Call.StaticCallee()) {
+	case "strings.Index", "strings.IndexByte", "strings.IndexRune":
+		if cv, ok := cl.Call.Args[0].(*ssa.Convert); ok {
+			return byteRoot(cv.X), true
+		}
+	case "bytes.IndexByte", "bytes.IndexRune":
+		return byteRoot(cl.Call.Args[0]), true
+	}
+	return nil, false
+}
+
+func (a *nulCut) merge(b nulCut) {
+	if !b.ok || (a.root != nil && b.root != a.root) {
+		a.ok = false
+		return
+	}
+	a.root = b.root
+	a.cuts += b.cuts
+	a.wholes += b.wholes
+	a.shortFallback = a.shortFallback || b.shortFallback
+}
+
+func nulCutOf(v ssa.Value, depth int) nulCut {
+	bad := nulCut{}
+	if depth > 4 {
+		return bad
+	}
+	switch x := v.(type) {
+	case *ssa.Phi:
+		out := nulCut{ok: true}
+		for _, e := range x.Edges {
+			out.merge(nulCutOf(e, depth+1))
+			if !out.ok {
+				return bad
+			}
+		}
+		return out
+	case *ssa.Convert:
+		bt, ok := x.Type().Underlying().(*types.Basic)
+		if !ok || bt.Info()&types.IsString == 0 {
+			return bad
+		}
+		sl, isSl := x.X.(*ssa.Slice)
+		if !isSl || (sl.Low == nil && sl.High == nil) {
+			return nulCut{ok: true, root: byteRoot(x.X), wholes: 1}
+		}
+		if sl.Low != nil || sl.Max != nil {
+			return bad
+		}
+		root := byteRoot(sl.X)
+		out := nulCut{ok: true, root: root}
+		var walk func(h ssa.Value, d int) bool
+		walk = func(h ssa.Value, d int) bool {
+			if ph, ok := h.(*ssa.Phi); ok && d < 4 {
+				for _, e := range ph.Edges {
+					if !walk(e, d+1) {
+						return false
+					}
+				}
+				return true
+			}
+			if src, ok := nulIndexOf(h); ok {
+				if src != root {
+					return false
+				}
+				out.cuts++
+				return true
+			}
+			if lo := lenOperand(h); lo != nil && byteRoot(lo) == root {
+				out.wholes++
+				return true
+			}
+			if k, ok := intConst(h); ok {
+				out.wholes++
+				full := int64(-1)
+				if al, ok := root.(*ssa.Alloc); ok {
+					if at, ok := al.Type().(*types.Pointer).Elem().Underlying().(*types.Array); ok {
+						full = at.Len()
+					}
+				}
+				if k != full {
+					out.shortFallback = true
+				}
+				return true
+			}
+			return false
+		}
+		if !walk(sl.High, 0) {
+			return bad
+		}
+		return out
+	case *ssa.Call:
+		g := x.Call.StaticCallee()
+		if g == nil || !inModule(g) || g.Blocks == nil || len(g.Params) != 1 || len(x.Call.Args) != 1 || (g.Object() != nil && g.Object().Exported()) {
+			return bad
+		}
+		out := nulCut{ok: true}
+		for _, rt := range returnsOf(g) {
+			if len(rt.Results) != 1 {
+				return bad
+			}
+			out.merge(nulCutOf(rt.Results[0], depth+1))
+			if !out.ok {
+				return bad
+			}
+		}
+		if out.root != ssa.Value(g.Params[0]) {
+			return bad
+		}
+		out.root = byteRoot(x.Call.Args[0])
+		return out
+	}
+	return bad
 }
